@@ -18,11 +18,14 @@ package layer4
 // (corr/C13Corr.v) and the property text is evaluated directly (oracle keys C13:...).
 
 import (
+	"bytes"
 	"crypto/tls"
 	"errors"
 	"fmt"
 	"io"
 	"net"
+	"os"
+	"os/exec"
 	"runtime"
 	"sort"
 	"strings"
@@ -847,6 +850,109 @@ func vC13MultiMatcher() (*vScen, vC13Plan) {
 	return sc, vC13Plan{procs: 2, closeAfter: -1, readLate: false, acceptDelay: []int{100}}
 }
 
+// ---- accept-and-close at once (run in a child process: a panic kills the process) ---------------
+
+// hands out one connection, then fails for good (the listener was closed right after the accept)
+type vOnceListener struct {
+	c    net.Conn
+	gave atomic.Bool
+}
+
+func (l *vOnceListener) Accept() (net.Conn, error) {
+	if l.gave.CompareAndSwap(false, true) {
+		return l.c, nil
+	}
+	return nil, net.ErrClosed
+}
+func (l *vOnceListener) Close() error   { return nil }
+func (l *vOnceListener) Addr() net.Addr { return vAddr("once") }
+
+func TestVerifC13PanicChild(t *testing.T) {
+	if os.Getenv("VERIF_C13_CHILD") != "1" {
+		t.Skip("child of TestVerifC13")
+	}
+	runtime.GOMAXPROCS(1)
+	okRounds := 0
+	for round := 0; round < 80; round++ {
+		sc := &vScen{byID: map[int]*vScConn{}, byTag: map[int]*vScConn{}, release: make(chan struct{})}
+		k := &vScConn{id: 1, tag: int(vC13Tag.Add(1)) & 0x7fff, kind: 'F'}
+		k.stream = vC13Stream('F', k.tag, 32)
+		sc.add(k)
+		cl, sv := net.Pipe()
+		h := &vHist{}
+		srv := &vSrvConn{Conn: sv, id: 1, h: h}
+		go func() {
+			_ = cl.SetWriteDeadline(time.Now().Add(2 * time.Second))
+			_, _ = cl.Write(k.stream)
+			_ = cl.SetReadDeadline(time.Now().Add(2 * time.Second))
+			_, _ = io.Copy(io.Discard, cl)
+			_ = cl.Close()
+		}()
+		lw := &ListenerWrapper{logger: zap.NewNop()}
+		if round%2 == 0 {
+			// no routes: the connection goes straight to the listener handler
+			lw.compiledRoute = RouteList{}.Compile(lw.logger, time.Second, listenerHandler{})
+		} else {
+			lw.compiledRoute = vC13Routes(sc).Compile(lw.logger, time.Second, listenerHandler{})
+		}
+		ln := lw.WrapListener(&vOnceListener{c: srv})
+		if round%4 >= 2 {
+			runtime.Gosched()
+		}
+		// the consumer: whatever Accept says, the connection must end up delivered or closed
+		c, err := ln.Accept()
+		fate := make(chan struct{})
+		go func() {
+			defer close(fate)
+			if err == nil && c != nil {
+				srv.released.Store(true)
+				_ = c.Close()
+				return
+			}
+			for t0 := time.Now(); time.Since(t0) < 2*time.Second; time.Sleep(200 * time.Microsecond) {
+				if srv.closes.Load() > 0 {
+					return
+				}
+				if c2, err2 := ln.Accept(); err2 == nil && c2 != nil {
+					srv.released.Store(true)
+					_ = c2.Close()
+					return
+				}
+			}
+			fmt.Println("VERIF-C13-CHILD-LOST")
+		}()
+		<-fate
+		okRounds++
+	}
+	fmt.Printf("VERIF-C13-CHILD-OK %d\n", okRounds)
+}
+
+func vC13AcceptAndClose(out *vOut) {
+	cmd := exec.Command(os.Args[0], "-test.run=^TestVerifC13PanicChild$", "-test.count=1", "-test.timeout=120s")
+	cmd.Env = append(os.Environ(), "VERIF_C13_CHILD=1", "VERIF_OUT=/dev/null")
+	b, err := cmd.CombinedOutput()
+	tail := b
+	if i := bytes.Index(b, []byte("panic:")); i >= 0 {
+		tail = b[i:]
+	}
+	if len(tail) > 1800 {
+		tail = tail[:1800]
+	}
+	in := map[string]any{"scenario": "GOMAXPROCS(1), an in-memory listener that hands out one fall-through connection and then reports closure; 80 rounds, with and without routes", "child_output": string(tail)}
+	switch {
+	case bytes.Contains(b, []byte("send on closed channel")):
+		out.Fail("C13:close:panic-send-on-closed-channel", "a connection accepted at the instant the listener is closed made the wrapper panic: pipeConnection sent on connChan after the shutdown goroutine had closed it", in)
+	case bytes.Contains(b, []byte("panic:")):
+		out.Fail("C13:close:panic", "the wrapper panicked when a connection was accepted at the instant the listener is closed", in)
+	case bytes.Contains(b, []byte("VERIF-C13-CHILD-LOST")):
+		out.Fail("C13:handover:lost", "a connection accepted at the instant the listener is closed was neither delivered nor closed", in)
+	case err != nil || !bytes.Contains(b, []byte("VERIF-C13-CHILD-OK")):
+		out.Fail("C13:close:child-failed", fmt.Sprintf("the accept-and-close child did not complete: %v", err), in)
+	default:
+		out.Stat("accept_and_close_rounds", 80)
+	}
+}
+
 func TestVerifC13(t *testing.T) {
 	out := vOpen()
 	defer out.Close()
@@ -872,6 +978,7 @@ func TestVerifC13(t *testing.T) {
 	run(sc, pl, "overlap-boundary")
 	sc, pl = vC13MultiMatcher()
 	run(sc, pl, "multi-matcher-sets")
+	vC13AcceptAndClose(out)
 	for i := 0; i < n; i++ {
 		sc := vC13Gen(r)
 		pl := vC13Plan1(r)
